@@ -272,7 +272,6 @@ func (fr *Frame) onRelease(id Term, write bool, pos token.Pos) {
 		fr.vc.oblige("lockinv", name, p, li.Clause.Text, fr.reach, t, li.Clause.Props)
 	}
 }
-func (fr *Frame) onCondWait(id Term, pos token.Pos)                       {}
 
 
 // anchorAsserts emits the function contract's `assert <anchor>: P` clauses for a site.
@@ -311,6 +310,115 @@ func (fr *Frame) anchorAsserts(kind, what string, pos token.Pos, bind map[string
 			p := fr.pos(pos)
 			src := fr.vc.eng.srcLine(p)
 			fr.vc.oblige("assert", fmt.Sprintf("%s/assert#%d@%s#%s", relFuncName(fr.vc.fn), i+1, strings.ReplaceAll(a, " ", "."), hash4(src)), p, c.Text, fr.reach, t, c.Props)
+		}
+	}
+}
+
+
+// onCondWait: Cond.Wait releases the lock, so the fields guarded by the owner's mutexes may
+// have been changed by other goroutines when it returns: they are havocked, and only the
+// declared rely conditions (two-state) and monitor invariants are known afterwards.
+func (fr *Frame) onCondWait(id Term, pos token.Pos) {
+	arg := fr.curLockArg
+	fr.curLockArg = nil
+	obj, n, _ := fr.lockOwner(arg)
+	if n == nil || n.Obj().Pkg() == nil {
+		return
+	}
+	pc := fr.vc.eng.contracts[n.Obj().Pkg().Path()]
+	if pc == nil {
+		return
+	}
+	vc := fr.vc
+	U := fr.U()
+	before := fr.st.clone()
+	st, _ := n.Underlying().(*types.Struct)
+	for _, g := range pc.Guarded {
+		if g.Type != n.Obj().Name() {
+			continue
+		}
+		for _, fname := range g.Fields {
+			for i := 0; i < st.NumFields(); i++ {
+				if st.Field(i).Name() != fname || isStruct(st.Field(i).Type()) {
+					continue
+				}
+				hn := fieldHeapName(n, i)
+				hs := arrSort(SInt, U.sortOf(st.Field(i).Type()))
+				h := vc.heap(fr.st, hn, hs)
+				fr.markDirty(hn, "")
+				nv := fr.freshVal("wait."+fname, st.Field(i).Type())
+				vc.setHeap(fr.st, hn, hs, store(h, obj.T, nv.T))
+			}
+		}
+	}
+	for _, c := range pc.Relies[n.Obj().Name()] {
+		k := 7500 + len(vc.cmds)
+		env := &SpecEnv{fr: fr, vars: map[string]*Val{"self": obj}, cur: fr.st, old: before, pkg: fr.vc.eng.spkgs[n.Obj().Pkg().Path()], nq: &k}
+		t, err := fr.evalSpecAssume(c.Expr, env)
+		if err != nil {
+			vc.specError(fr, c, err)
+			continue
+		}
+		vc.assume(fr.reach, t)
+		vc.globalsUsed = append(vc.globalsUsed, "rely "+n.Obj().Name()+": "+c.Text)
+	}
+}
+
+
+// interference models the other goroutines at the boundary of a call to a method of an
+// object with lock-guarded fields: unless the caller holds the guarding mutex, the guarded
+// fields may have changed since the caller last looked, subject to the type's rely conditions.
+func (fr *Frame) interference(recv *Val, rt types.Type) {
+	n := namedOf(rt)
+	if n == nil || n.Obj().Pkg() == nil {
+		return
+	}
+	pc := fr.vc.eng.contracts[n.Obj().Pkg().Path()]
+	if pc == nil {
+		return
+	}
+	st, ok := n.Underlying().(*types.Struct)
+	if !ok {
+		return
+	}
+	vc := fr.vc
+	U := fr.U()
+	for _, g := range pc.Guarded {
+		if g.Type != n.Obj().Name() {
+			continue
+		}
+		k := 7700 + len(vc.cmds)
+		env := &SpecEnv{fr: fr, vars: map[string]*Val{"self": recv}, cur: fr.st, old: fr.st, pkg: fr.vc.eng.spkgs[n.Obj().Pkg().Path()], nq: &k}
+		mu, err := env.selectField(recv, g.Mutex)
+		if err != nil {
+			continue
+		}
+		id := mu.T
+		if mu.S == SIface {
+			id = sx("ival", mu.T)
+		}
+		free := vc.define("interf", SBool, and(fr.reach, eq(sel(fr.lockW(), id), "0"), eq(sel(fr.lockR(), id), "0")))
+		before := fr.st.clone()
+		for _, fname := range g.Fields {
+			for i := 0; i < st.NumFields(); i++ {
+				if st.Field(i).Name() != fname || isStruct(st.Field(i).Type()) {
+					continue
+				}
+				hn := fieldHeapName(n, i)
+				hs := arrSort(SInt, U.sortOf(st.Field(i).Type()))
+				h := vc.heap(fr.st, hn, hs)
+				fr.markDirty(hn, "")
+				nv := fr.freshVal("interf."+fname, st.Field(i).Type())
+				vc.setHeap(fr.st, hn, hs, ite(free, store(h, recv.T, nv.T), h))
+			}
+		}
+		for _, c := range pc.Relies[n.Obj().Name()] {
+			k2 := 7800 + len(vc.cmds)
+			renv := &SpecEnv{fr: fr, vars: map[string]*Val{"self": recv}, cur: fr.st, old: before, pkg: fr.vc.eng.spkgs[n.Obj().Pkg().Path()], nq: &k2}
+			t, err := fr.evalSpecAssume(c.Expr, renv)
+			if err == nil {
+				vc.assume(free, t)
+			}
 		}
 	}
 }
